@@ -178,6 +178,16 @@ fn verif_grid() {
                 other => Err(format!("{}: {:?}", expr, other)) });
         }
     }
+    // text functions count and map characters, not bytes
+    {
+        let def = "CREATE TABLE t(line = '^s=(.*)$', line[1] => s TEXT);";
+        for (i, (text, len, up)) in [("jörg", 4, "JÖRG"), ("日本語", 3, "日本語"), ("naïve café", 10, "NAÏVE CAFÉ"), ("\u{1F600}x", 2, "\u{1F600}X")].iter().enumerate() {
+            g.case(&format!("text-function-chars-{}", i), move || match q(def, "SELECT length(s) AS n, upper(s) AS u, length(upper(s)) = length(s) AS same FROM t", &[&format!("s={}", text)]) {
+                Outcome::Lines(l, _) => { let v: J = serde_json::from_str(&l[0]).unwrap();
+                    if v["n"] == json!(len) && v["u"] == json!(up) { Ok(()) } else { Err(format!("length / upper of {:?} printed {}; the text has {} characters and its upper case is {:?}", text, l[0], len, up)) } }
+                other => Err(format!("{:?}", other)) });
+        }
+    }
     // `input` denotes the raw line, also when the table has a column of that name
     g.case("input-column-name-clash", || {
         let def = "CREATE TABLE t(line = '^input=(\\\\w+) x=([0-9]+)$', line[1] => input TEXT, line[2] => x INT);";
